@@ -193,12 +193,23 @@ def _is_idx_lambda_broadcast_op(expr: IndexLambda) -> bool:
     from_shape = expr.bindings[input_name].shape
     to_shape = expr.shape
 
+    if len(from_shape) > len(to_shape):
+        return False
+
     for in_dim, brdcst_dim in zip(from_shape,
-                                  to_shape[-len(from_shape):],
+                                  to_shape[len(to_shape)-len(from_shape):],
                                   strict=True):
         if (not are_shape_components_equal(in_dim, brdcst_dim)
                 and not are_shape_components_equal(in_dim, 1)):
             return False
+
+    if isinstance(expr.expr, p.Subscript):
+        # only the exact broadcast subscript is a broadcast; a permuted,
+        # shifted or constant subscript is some other index remapping
+        if expr.expr.index_tuple != get_indexing_expression(from_shape, to_shape):
+            return False
+    elif from_shape != ():
+        return False
 
     return True
 
